@@ -45,6 +45,8 @@ pub enum Step {
     Op { h: HandleId, op: Op, refs: Vec<(HandleId, SubMode)> },
     Take { src: HandleId, new: HandleId },
     Clone { src: HandleId, new: HandleId },
+    /// `dst.clone_from(&src)` on two live handles of one family
+    CloneFrom { src: HandleId, dst: HandleId },
     Clear { h: HandleId, what: ClearKind },
     Drop { h: HandleId },
     Observe {
@@ -72,6 +74,7 @@ impl Step {
             }
             Step::Take { .. } => "Take".into(),
             Step::Clone { .. } => "Clone".into(),
+            Step::CloneFrom { .. } => "CloneFrom".into(),
             Step::Clear { what, .. } => format!("{:?}", what),
             Step::Drop { .. } => "Drop".into(),
             Step::Observe { iden_panic_in, nested, obs, .. } => {
@@ -93,7 +96,7 @@ impl Step {
         }
     }
     pub fn is_value_op(&self) -> bool {
-        matches!(self, Step::Take { .. } | Step::Clone { .. } | Step::Clear { .. })
+        matches!(self, Step::Take { .. } | Step::Clone { .. } | Step::CloneFrom { .. } | Step::Clear { .. })
             || matches!(self, Step::Op { refs, .. } if !refs.is_empty())
     }
 }
